@@ -262,8 +262,8 @@ def run(ctx):
         'base58 text and optimized bytes of domain values are abstract in the theorems (laws = C09/C10); the driver uses a structured placeholder, converted with the real library at the boundary',
         'RFC 3339: the round trip parse(format(t)) = t is PROVED for the model (Civil.fmtTimestamp / Civil.parseTimestamp, all t in 0001..9999); trusted and only sampled here (clock stream): '
         'that datetime.fromtimestamp/strftime (inside format_timestamp) and strict_rfc3339 / calendar.timegm compute the same functions as the model',
-        "timestamp strings: Python's `\\d` also matches non-ASCII decimal digits (not modelled, not generated); a fraction is added as a binary float, so a fraction within 2^-15 of 0 or 1 "
-        '(five or more leading 0s or 9s) may be rounded to the neighbouring second by Python — the model computes with the exact decimal value, the stream generates fractions in [0.0001, 0.9999] or exactly 0',
+        "timestamp strings: Python's `\\d` also matches non-ASCII decimal digits (not modelled, not generated); the binary-float arithmetic of a fraction (`timestamp += float('0' + frac)`, "
+        "`-= offset`, `int`) IS modelled (round-to-nearest-even binary64 on rationals) and compared on fractions of 1..400 digits including the ones that round to the neighbouring second",
         'check_constraints (sorted/set over __lt__/__hash__) is abstract (C03); multi-element sets/maps are generated only for key types this harness can order independently'
         + ('' if pairs_ok else ' — pair keys excluded: PairType.__lt__ is not lexicographic on this tree (C03)'),
         'lambda bodies: Micheline.match(...).as_micheline_expr() is assumed idempotent on the generated bodies (checked here on each body)',
@@ -437,7 +437,33 @@ def run_clock(ctx, st):
             except Exception as e:
                 back = 'raises ' + type(e).__name__
         rows.append((label, t, text, m, back))
-    fmt_model = ctx.model([f'fmt {t}' for _, t, _, _, _ in rows])
+    # one driver run for the whole stream (its start-up dominates on a busy machine)
+    inside = [(label, t) for label, t in instants if RFC_LO <= t <= RFC_HI]
+    n_rich = 220 if quick else 6000
+    step = max(1, len(inside) // n_rich)
+    strings = [('fixed', s) for s in TS_STRINGS]
+    for i, (label, t) in enumerate(inside):
+        strings += [(lab, s) for lab, s in g.clock_spellings(rng, t, i % step == 0)]
+    zs = [z for _, t in instants[::7] for z in [t // 86400]] + [rng.randrange(-10 ** 7, 10 ** 7) for _ in range(500 if quick else 20000)] \
+        + [rng.randrange(-10 ** 12, 10 ** 12) for _ in range(100 if quick else 2000)] + [-719468, -719469, -719467, 0, -1, 146097 - 719468, 146096 - 719468]
+    dates = []
+    for _ in range(600 if quick else 20000):
+        y = rng.choice([rng.randrange(-5000, 15000), rng.choice(g.CLOCK_YEARS), rng.choice([0, -1, -4, -100, -400, 10000, 10400])])
+        mth = rng.randrange(0, 14)
+        d = rng.choice([0, 1, 2, 27, 28, 29, 30, 31, 32, rng.randrange(1, 29)])
+        dates.append((y, mth, d))
+    ty = mich.to_line({'prim': 'timestamp'})
+    blocks = [[f'fmt {t}' for _, t, _, _, _ in rows],
+              ['tsparse ' + (s.encode().hex() or '-') for _, s in strings],
+              [f'parse {ty} | ' + mich.to_line({'string': s}) for _, s in strings],
+              [f'civil {z}' for z in zs],
+              [f'days {y} {mth} {d}' for y, mth, d in dates]]
+    out = ctx.model([ln for b in blocks for ln in b])
+    models, pos = [], 0
+    for b in blocks:
+        models.append(None if out is None else out[pos:pos + len(b)])
+        pos += len(b)
+    fmt_model, tsparse_model, parse_model, civil_model, days_model = models
     reported = set()
     for i, (label, t, text, m, back) in enumerate(rows):
         inside = RFC_LO <= t <= RFC_HI
@@ -467,48 +493,27 @@ def run_clock(ctx, st):
             ctx.mismatch('clock:fmt', {'instant': t, 'label': label}, text, fmt_model[i])
 
     # ---- parsing: canonical text of every instant, the other spellings for a part of them
-    inside = [(label, t) for label, t in instants if RFC_LO <= t <= RFC_HI]
-    n_rich = 220 if quick else 6000
-    step = max(1, len(inside) // n_rich)
-    strings = [('fixed', s) for s in TS_STRINGS]
-    for i, (label, t) in enumerate(inside):
-        rich = i % step == 0
-        strings += [(lab, s) for lab, s in g.clock_spellings(rng, t, rich)]
-    lines = ['tsparse ' + (s.encode().hex() or '-') for _, s in strings]
-    ty = mich.to_line({'prim': 'timestamp'})
-    lines += [f'parse {ty} | ' + mich.to_line({'string': s}) for _, s in strings]
-    model = ctx.model(lines)
-    n = len(strings)
     for i, (lab, s) in enumerate(strings):
         ctx.case({'stream': 'clock-parse', 'string': s}, nontrivial=lab != 'canonical')
         ctx.count('clock_spelling', lab)
         lib, real = lib_parse(s), real_parse(s)
         ctx.count('clock_parse_verdict', 'rfc3339' if lib != 'none' else ('int' if real != 'err' else 'rejected'))
-        if model is not None:
-            if model[i] != lib:
-                ctx.mismatch('clock:tsparse', {'spelling': lab, 'string': s}, lib, model[i])
-            got = model[n + i]
+        if tsparse_model is not None:
+            if tsparse_model[i] != lib:
+                ctx.mismatch('clock:tsparse', {'spelling': lab, 'string': s}, lib, tsparse_model[i])
+            got = parse_model[i]
             got = got[1:] if got.startswith('m') else got
             if got != real:
                 ctx.mismatch('clock:parse', {'spelling': lab, 'string': s}, real, got)
 
     # ---- the date algorithms themselves, also far outside the years `datetime` knows
-    zs = [z for _, t in instants[::7] for z in [t // 86400]] + [rng.randrange(-10 ** 7, 10 ** 7) for _ in range(500 if quick else 20000)] \
-        + [rng.randrange(-10 ** 12, 10 ** 12) for _ in range(100 if quick else 2000)] + [-719468, -719469, -719467, 0, -1, 146097 - 719468, 146096 - 719468]
-    dates = []
-    for _ in range(600 if quick else 20000):
-        y = rng.choice([rng.randrange(-5000, 15000), rng.choice(g.CLOCK_YEARS), rng.choice([0, -1, -4, -100, -400, 10000, 10400])])
-        mth = rng.randrange(0, 14)
-        d = rng.choice([0, 1, 2, 27, 28, 29, 30, 31, 32, rng.randrange(1, 29)])
-        dates.append((y, mth, d))
-    model = ctx.model([f'civil {z}' for z in zs] + [f'days {y} {mth} {d}' for y, mth, d in dates])
-    if model is not None:
-        for z, got in zip(zs, model):
+    if civil_model is not None:
+        for z, got in zip(zs, civil_model):
             ctx.case({'stream': 'clock-civil', 'day': z}, nontrivial=False)
             want = '%d %d %d' % g.civil_of_days(z)
             if got != want:
                 ctx.mismatch('clock:civilFromDays', z, want, got)
-        for (y, mth, d), got in zip(dates, model[len(zs):]):
+        for (y, mth, d), got in zip(dates, days_model):
             ctx.case({'stream': 'clock-days', 'date': [y, mth, d]}, nontrivial=False)
             valid = 1 <= mth <= 12 and 1 <= d <= g.month_len(y, mth)
             want = str(g.days_of_any(y, mth, d)) if valid else 'invalid'
